@@ -30,8 +30,14 @@ import (
 )
 
 const (
-	diffSlack   = 2 << 10
-	diffPerByte = 256
+	diffSlack = 2 << 10
+	// slack per body byte: what a body byte can legitimately cost once the claimed count exceeds what the body holds.
+	// merkle: a flag byte steers at most eight nodes (observed < 3 bytes per body byte); GCS with P = 0: a body byte
+	// holds up to eight values, each of which becomes an entry of HashMatchAny's table (observed 410 bytes per byte);
+	// bloom: nothing
+	diffPerByte       = 64
+	diffPerByteGCS    = 512
+	diffPerByteMerkle = 64
 )
 
 var diffObs []interface{}
@@ -55,7 +61,7 @@ func allocOf(f func()) (uint64, bool, string) {
 
 // diffCount evaluates one body under every claimed count (ascending) and reports the first hostile count whose
 // allocation exceeds the honest maximum by more than the slack.
-func diffCount(entry, subject string, bodyLen int, capacity uint64, counts []uint64, call func(c uint64), describe func(c uint64) interface{}) {
+func diffCount(entry, subject string, bodyLen int, perByte uint64, capacity uint64, counts []uint64, call func(c uint64), describe func(c uint64) interface{}) {
 	var honestMax uint64
 	var honestAt uint64
 	type obs struct {
@@ -76,11 +82,11 @@ func diffCount(entry, subject string, bodyLen int, capacity uint64, counts []uin
 			}
 			continue
 		}
-		limit := honestMax + diffSlack + diffPerByte*uint64(bodyLen)
+		limit := honestMax + diffSlack + perByte*uint64(bodyLen)
 		if a > limit {
-			rep.Violate("C08:"+entry+":alloc", fmt.Sprintf("%s allocates according to the CLAIMED %s, not to the input: same %d body bytes, claimed %d -> %d bytes allocated, claimed %d -> %d bytes (limit %d = honest maximum + %d + %d per body byte)", entry, subject, bodyLen, honestAt, honestMax, c, a, limit, diffSlack, diffPerByte),
+			rep.Violate("C08:"+entry+":alloc", fmt.Sprintf("%s allocates according to the CLAIMED %s, not to the input: same %d body bytes, claimed %d -> %d bytes allocated, claimed %d -> %d bytes (limit %d = honest maximum + %d + %d per body byte)", entry, subject, bodyLen, honestAt, honestMax, c, a, limit, diffSlack, perByte),
 				map[string]interface{}{"entry": entry, "monitor": "declared-count differential (same body, different claimed count)", "subject": subject, "body_len": bodyLen, "body_capacity": capacity,
-					"honest": map[string]interface{}{"claimed_count": honestAt, "allocated_bytes": honestMax, "input": describe(honestAt)},
+					"honest":  map[string]interface{}{"claimed_count": honestAt, "allocated_bytes": honestMax, "input": describe(honestAt)},
 					"hostile": map[string]interface{}{"claimed_count": c, "allocated_bytes": a, "input": describe(c)}, "limit_bytes": limit})
 			break
 		}
@@ -117,7 +123,7 @@ func diffCountProbes(thorough bool) []sizeProbe {
 				hs = append(hs, &h)
 			}
 			body := 32*mb.nh + len(mb.flag)
-			diffCount("merkleblock.ExtractMatches", "transaction count", body, uint64(8*len(mb.flag)), counts,
+			diffCount("merkleblock.ExtractMatches", "transaction count", body, diffPerByteMerkle, uint64(8*len(mb.flag)), counts,
 				func(c uint64) {
 					msg := wire.MsgMerkleBlock{Transactions: uint32(c), Hashes: hs, Flags: mb.flag}
 					p := merkleblock.NewMerkleBlockFromMsg(msg)
@@ -157,7 +163,7 @@ func diffCountProbes(thorough bool) []sizeProbe {
 					entry = "gcs.FromNBytes"
 				}
 				addD(entry, fmt.Sprintf("declared-count differential: body %x, P=%d", head2(gbody, 16), P), bi, func() {
-					diffCount(entry, "element count N", len(gbody), uint64(8*len(gbody)), counts,
+					diffCount(entry, "element count N", len(gbody), diffPerByteGCS, uint64(8*len(gbody)), counts,
 						func(c uint64) {
 							var f *gcs.Filter
 							var err error
@@ -209,7 +215,7 @@ func diffCountProbes(thorough bool) []sizeProbe {
 			addD("bloom."+op, fmt.Sprintf("declared-count differential: filter of %d bytes", len(fb)), bi, func() {
 				hcounts := []uint64{1, 2, 3, 10, 49, 50}
 				d := []byte{1, 2, 3, 4}
-				diffCount("bloom."+op, "hash-function count", len(fb), 1, hcounts,
+				diffCount("bloom."+op, "hash-function count", len(fb), 0, 1, hcounts,
 					func(c uint64) {
 						f := bloom.LoadFilter(wire.NewMsgFilterLoad(append([]byte(nil), fb...), uint32(c), 5, wire.BloomUpdateAll))
 						switch op {
